@@ -593,7 +593,8 @@ func shouldFilterLocationTracked(candidateIP net.IP) bool {
 		return false
 	}
 
-	return shouldFilterLocationTrackedIP(addr)
+	// a 16-byte IPv4 address is an IPv4 address, not an IPv6 one
+	return shouldFilterLocationTrackedIP(addr.Unmap())
 }
 
 func (a *Agent) gatherCandidatesLocalUDPMux(ctx context.Context) error { //nolint:gocognit,cyclop
